@@ -62,14 +62,22 @@ int libwifi_remove_tag(struct libwifi_tagged_parameters *tags, int tag_number) {
     // Loop through the tagged parameters list until landing on the supplied tag number
     do {
         if (it.tag_header->tag_num == tag_number) {
-            // Calculate the length of the tag we're removing, so that we know
-            // how many bytes to shrink the tagged parameter list by
-            size_t copy_len = tags->length -
-                              (it.tag_data - tags->parameters) -
-                              (it.tag_header->tag_len + sizeof(struct libwifi_tag_header));
-            memcpy(tags->parameters, it.tag_data + it.tag_header->tag_len, copy_len);
-            size_t new_len = tags->length - it.tag_header->tag_len - sizeof(struct libwifi_tag_header);
-            tags->parameters = realloc(tags->parameters, new_len);
+            // Close the gap left by the removed tag: move everything that follows it
+            // down over it, then shrink the allocation by the size of the removed tag
+            unsigned char *tag_start = (unsigned char *) it.tag_header;
+            size_t tag_total = it.tag_header->tag_len + sizeof(struct libwifi_tag_header);
+            size_t tail_len = tags->length - (size_t) (tag_start - tags->parameters) - tag_total;
+            memmove(tag_start, tag_start + tag_total, tail_len);
+            size_t new_len = tags->length - tag_total;
+            if (new_len == 0) {
+                free(tags->parameters);
+                tags->parameters = NULL;
+            } else {
+                void *buf = realloc(tags->parameters, new_len);
+                if (buf != NULL) {
+                    tags->parameters = buf;
+                }
+            }
             tags->length = new_len;
             break;
         }
